@@ -653,6 +653,7 @@ func (vfs *OrefaFS) OpenFile(name string, flag int, perm fs.FileMode) (avfs.File
 		nd:       child,
 		openMode: om,
 		name:     name,
+		absPath:  absPath,
 		at:       at,
 	}
 
